@@ -150,6 +150,23 @@ func (w *World) Step(st Step) error {
 			break
 		}
 		w.ConnDown(st.Conn)
+	case "heal":
+		// epilogue: bring the process up and give every target without a live connection a fresh one;
+		// every sub-action is a recorded step of its own
+		if w.proc == nil {
+			if err := w.Step(Step{K: "restart", Auto: true}); err != nil {
+				return err
+			}
+		}
+		for _, t := range w.opt.Targets {
+			if len(w.pool.byTarget(t)) == 0 {
+				w.healN++
+				if err := w.Step(Step{K: "connup", T: t, Conn: fmt.Sprintf("z%d", w.healN), Auto: true}); err != nil {
+					return err
+				}
+			}
+		}
+		return nil
 	case "devrestart":
 		w.devices[st.T].RestartEmpty()
 	case "devfail":
